@@ -9,7 +9,7 @@ from ..algebra import Poly
 from ..degrees import check_degree, declared_degree
 from ..dimscan import scan
 from ..index import AnalysisError
-from ..inertia3d import (NAMES, abs_of_det, check_display, fold, matrix_display, moment_conditions, quadrature_table)
+from ..inertia3d import (NAMES, abs_of_det, component_map, fold, moment_conditions, quadrature_table)
 from ..report import Result
 
 EXPLANATION = (
@@ -58,14 +58,15 @@ def run(index, tier="quick", seed=0) -> Result:
         raise AnalysisError("anchor vanished: ConvexPolyhedron._compute_inertia_tensor")
     where = f"{fn.file}:{fn.lineno}"
     subs = {}
+    comp_of, disp_probs = component_map(fn.node)
     for node in ast.walk(fn.node):
-        if isinstance(node, ast.Assign) and isinstance(node.targets[0], ast.Name) and node.targets[0].id in NAMES \
+        if isinstance(node, ast.Assign) and isinstance(node.targets[0], ast.Name) and node.targets[0].id in comp_of \
                 and isinstance(node.value, ast.Call):
             callee = ast.unparse(node.value.func)
             cands = [k.value for k in node.value.keywords if isinstance(k.value, ast.List)] + \
                     [a for a in node.value.args if isinstance(a, ast.List)]
             if cands:
-                subs[node.targets[0].id] = (callee, fold(cands[0]), node.lineno)
+                subs[comp_of[node.targets[0].id]] = (callee, fold(cands[0]), node.lineno)
     if len(subs) < 6:
         raise AnalysisError(f"only {len(subs)} inertia components with a sub= index list found (6 confirmed)")
     diag_callees = {subs[n_][0] for n_ in ("i_xx", "i_yy", "i_zz") if n_ in subs}
@@ -148,7 +149,7 @@ def run(index, tier="quick", seed=0) -> Result:
                 res.bad("AXI", k + ":sign", f"{fn.file}:{kn.lineno}", f"{kname}: products of inertia carry a minus sign (I_ab = -int a b dV)")
             else:
                 res.bad("QUAD", k + ":const", f"{fn.file}:{kn.lineno}", f"{kname}: divergence-theorem constant must be 1/8")
-    probs = check_display(matrix_display(fn.node))
+    probs = disp_probs
     if probs:
         res.bad("AXI", "ConvexPolyhedron._compute_inertia_tensor:display", where, "returned matrix: " + "; ".join(probs))
     else:
@@ -238,60 +239,111 @@ def _is_squared_operand(term, fn_node):
 
 
 def _pax(res, index):
+    """PAX: translate_inertia_tensor(d, I, V) = I + V (|d|^2 1 - d (x) d).  Symbolic normal form of the returned
+    expression; products of the displacement with itself are classified INNER / OUTER by the transposition pattern
+    of their operands (row-vector convention after atleast_2d, or the 1-D forms), local names carry no meaning."""
     utils = index.module("coxeter.shapes.utils")
     fn = utils.functions.get("translate_inertia_tensor")
     if fn is None:
         raise AnalysisError("anchor vanished: translate_inertia_tensor")
     where = f"{fn.file}:{fn.lineno}"
+    p = fn.params
+    if len(p) != 3:
+        raise AnalysisError("translate_inertia_tensor no longer takes (displacement, inertia_tensor, volume)")
     env = {}
-    ok_inner = ok_outer = False
-    for s in fn.node.body:
-        if isinstance(s, ast.Assign) and isinstance(s.targets[0], ast.Name):
-            env[s.targets[0].id] = s.value
-    # inner = d . d^T (scalar), outer = d^T . d (3x3) for a row vector d
-    def dot_args(node):
-        for c in ast.walk(node):
-            if isinstance(c, ast.Call) and ast.unparse(c.func) in ("np.dot", "np.matmul", "np.inner", "np.outer"):
-                return ast.unparse(c.func), [ast.unparse(a) for a in c.args]
-        return None, None
-    if "inner" in env:
-        f, a = dot_args(env["inner"])
-        ok_inner = a is not None and ((f in ("np.dot", "np.matmul") and not a[0].endswith(".T") and a[1].endswith(".T")) or f == "np.inner")
-    if "outer" in env:
-        f, a = dot_args(env["outer"])
-        ok_outer = a is not None and ((f in ("np.dot", "np.matmul") and a[0].endswith(".T") and not a[1].endswith(".T")) or f == "np.outer")
-    rets = [n for n in ast.walk(fn.node) if isinstance(n, ast.Return)]
-    form_ok = False
-    if rets:
-        # normal form over opaque atoms
-        keep = set(fn.params) | {"inner", "outer"}
+    promoted = False
+    dnames = {p[0]}
+    for s_ in fn.node.body:
+        if isinstance(s_, ast.Assign) and len(s_.targets) == 1 and isinstance(s_.targets[0], ast.Name):
+            v = s_.value
+            if isinstance(v, ast.Call) and ast.unparse(v.func) in ("np.atleast_2d", "np.asarray", "np.array", "np.atleast_1d") \
+                    and v.args and isinstance(v.args[0], ast.Name) and v.args[0].id in dnames:
+                dnames.add(s_.targets[0].id)
+                promoted = promoted or ast.unparse(v.func) == "np.atleast_2d"
+            else:
+                env[s_.targets[0].id] = v
 
-        def ev(n):
-            if isinstance(n, ast.Name):
-                if n.id in env and n.id not in keep:
-                    return ev(env[n.id])     # a local temporary: look through it
-                return Poly.atom(n.id)
-            if isinstance(n, ast.Call):
-                return Poly.atom(ast.unparse(n).replace(" ", ""))
-            if isinstance(n, ast.BinOp):
-                l, r = ev(n.left), ev(n.right)
-                if l is None or r is None:
-                    return None
-                if isinstance(n.op, ast.Add):
-                    return l + r
-                if isinstance(n.op, ast.Sub):
-                    return l - r
-                if isinstance(n.op, ast.Mult):
-                    return l * r
+    def is_d(n):
+        return isinstance(n, ast.Name) and n.id in dnames
+
+    def is_dt(n):
+        if isinstance(n, ast.Attribute) and n.attr == "T" and is_d(n.value):
+            return True
+        return isinstance(n, ast.Call) and ast.unparse(n.func) in ("np.transpose",) and n.args and is_d(n.args[0])
+
+    def product(a, b, f):
+        if f in ("np.inner", "np.vdot") and is_d(a) and is_d(b):
+            return Poly.atom("INNER")
+        if f == "np.outer" and is_d(a) and is_d(b):
+            return Poly.atom("OUTER")
+        if f in ("np.dot", "np.matmul", "@"):
+            if promoted:
+                if is_d(a) and is_dt(b):
+                    return Poly.atom("INNER")
+                if is_dt(a) and is_d(b):
+                    return Poly.atom("OUTER")
+                if (is_d(a) and is_d(b)) or (is_dt(a) and is_dt(b)):
+                    return Poly.atom("BADPRODUCT")      # (1,3).(1,3): shape error / not a product of the theorem
+            elif is_d(a) and is_d(b):
+                return Poly.atom("INNER")
+        return None
+
+    def ev(n, depth=0):
+        if depth > 12:
             return None
-        got = ev(rets[0].value)
-        p = fn.params
-        if got is not None and len(p) == 3:
-            I, V = Poly.atom(p[1]), Poly.atom(p[2])
-            want = I + V * (Poly.atom("inner") * Poly.atom("np.eye(3)") - Poly.atom("outer"))
-            form_ok = got == want
-    if ok_inner and ok_outer and form_ok:
-        res.ok("PAX", "translate_inertia_tensor", sample={"form": "I + V (inner * eye(3) - outer)"})
+        if isinstance(n, ast.Name):
+            if n.id == p[1]:
+                return Poly.atom("I")
+            if n.id == p[2]:
+                return Poly.atom("V")
+            if n.id in env:
+                return ev(env[n.id], depth + 1)
+            return None
+        if isinstance(n, ast.Constant) and isinstance(n.value, (int, float)):
+            return Poly.const(n.value)
+        if isinstance(n, ast.Call):
+            f = ast.unparse(n.func)
+            if f in ("np.squeeze", "np.asarray", "float", "np.float64") and n.args:
+                return ev(n.args[0], depth + 1)
+            if f in ("np.eye", "np.identity") and n.args and isinstance(n.args[0], ast.Constant) and n.args[0].value == 3:
+                return Poly.atom("EYE")
+            if f in ("np.dot", "np.matmul", "np.inner", "np.outer", "np.vdot") and len(n.args) == 2:
+                return product(n.args[0], n.args[1], f)
+            if f == "np.sum" and n.args and isinstance(n.args[0], ast.BinOp):
+                b = n.args[0]
+                if isinstance(b.op, ast.Mult) and is_d(b.left) and is_d(b.right):
+                    return Poly.atom("INNER")
+                if isinstance(b.op, ast.Pow) and is_d(b.left) and isinstance(b.right, ast.Constant) and b.right.value == 2:
+                    return Poly.atom("INNER")
+            return None
+        if isinstance(n, ast.BinOp):
+            if isinstance(n.op, ast.MatMult):
+                return product(n.left, n.right, "@")
+            l, r = ev(n.left, depth + 1), ev(n.right, depth + 1)
+            if l is None or r is None:
+                return None
+            if isinstance(n.op, ast.Add):
+                return l + r
+            if isinstance(n.op, ast.Sub):
+                return l - r
+            if isinstance(n.op, ast.Mult):
+                return l * r
+            return None
+        if isinstance(n, ast.UnaryOp) and isinstance(n.op, ast.USub):
+            v = ev(n.operand, depth + 1)
+            return -v if v is not None else None
+        return None
+
+    rets = [n for n in ast.walk(fn.node) if isinstance(n, ast.Return) and n.value is not None]
+    if len(rets) != 1:
+        raise AnalysisError("translate_inertia_tensor: not a single return expression")
+    got = ev(rets[0].value)
+    want = Poly.atom("I") + Poly.atom("V") * (Poly.atom("INNER") * Poly.atom("EYE") - Poly.atom("OUTER"))
+    if got is None:
+        res.bad("PAX", "translate_inertia_tensor", where, "translate_inertia_tensor is not I + V (|d|^2 1 - d (x) d): the returned expression is not a "
+                "polynomial in I, V, eye(3) and the inner / outer product of the displacement with itself")
+    elif got == want:
+        res.ok("PAX", "translate_inertia_tensor", sample={"form": "I + V (INNER * EYE - OUTER)", "row_vector": promoted})
     else:
-        res.bad("PAX", "translate_inertia_tensor", where, "translate_inertia_tensor is not I + V (|d|^2 1 - d (x) d) "
-                f"(inner ok: {ok_inner}, outer ok: {ok_outer}, combination ok: {form_ok})")
+        res.bad("PAX", "translate_inertia_tensor", where, f"translate_inertia_tensor is not I + V (|d|^2 1 - d (x) d): it computes {got}")
+
